@@ -12,7 +12,7 @@ wt=$(mktemp -d /tmp/selftest.XXXX); rmdir $wt
 git -C /repo worktree add -q --detach $wt HEAD || exit 2
 mkdir -p /tmp/selftest_evidence; cp evidence/*.json /tmp/selftest_evidence/ 2>/dev/null
 bad=0
-for d in seeded/* selftest/refactors/*; do
+for d in seeded/* selftest/canaries/* selftest/refactors/*; do
   [ -f $d/patch.diff ] || continue
   case "$d" in *"$filter"*) ;; *) continue;; esac
   prop=$(python3 -c "import json,sys; m=json.load(open('$d/meta.json')); print(m.get('check_with', m['property']))")
